@@ -9,7 +9,9 @@ import LoraVerif.Lemmas.Safe
 * plan shape — dynamic: region not fixed, 16 slots, 9-byte mask, the default (join) channels defined,
   every defined channel inside the region's band (needed by C09, not for panic-freedom);
   fixed: region fixed, 9-byte masks (plan and `jc.avail`), `preferredSubband ∈ 1..8`;
-  (`previousChannel`/`availPrev` need NO bound: the code reduces them mod 72 / to a sub-band itself)
+  (`previousChannel`/`availPrev` need NO bound: the code reduces them mod 72 / to a sub-band itself);
+  the join-channel walk is in a state `AvInv` in which the bank visited next has a free channel
+  (needed for "the accept set is never empty", not for panic-freedom);
 * `cfg.dataRate` is a data rate the region defines for uplinks (so `datarates()[dr]` is in range and
   `unwrap()` succeeds); `cfg.rx1DrOffset < 8` (the domain on which the RX1 tables are total);
 * the antenna gain is an `i8` with `MAX_EIRP − gain ≤ 127` (the one `i8` subtraction of `adjust_power`);
@@ -34,11 +36,67 @@ def dynWF (r : RegionId) (p : DynPlan) : Bool :=
   p.channels.length == 16 && p.mask.length == 9 && (List.range (numJoinChannels r)).all (definedSlot p.channels) &&
     p.channels.all (inBand r)
 
+/-! the walk over the join channels of a fixed plan (`AvailableChannels`): banks are visited in
+cyclic order and each visit takes one free channel of the bank, so the bank visited next always has
+a free channel left (the accept set of the `entropy` loop is never empty) -/
+
+/-- number of channels a mask byte enables -/
+def byteCnt (b : Nat) : Nat := ((List.range 8).filter (fun i => b.testBit i)).length
+
+def bankCnt (m : Mask) (k : Nat) : Nat :=
+  match m[k]? with
+  | some b => byteCnt b
+  | none => 0
+
+/-- `k` lies in the cyclic interval of banks `b0, b0+1, …, b` (mod 9) -/
+def inCyc (b0 b k : Nat) : Prop := if b0 ≤ b then b0 ≤ k ∧ k ≤ b else (b0 ≤ k ∨ k ≤ b)
+
+instance (b0 b k : Nat) : Decidable (inCyc b0 b k) := by unfold inCyc; infer_instance
+
+/-- every bank of `avail` holds `8 − t` channels if it was visited in the current round
+(`b0 … b`), `9 − t` otherwise -/
+def AvShape (avail : Mask) (b0 t b : Nat) : Prop :=
+  ∀ k, k < 9 → bankCnt avail k = if inCyc b0 b k then 8 - t else 9 - t
+
+/-- the invariant of `AvailableChannels`: fresh, or banks visited in cyclic order, one channel per visit -/
+def AvInv (avail : Mask) (prev : Option Nat) : Prop :=
+  avail.length = 9 ∧ (∀ b ∈ avail, b < 256) ∧
+  match prev with
+  | none => avail = Mask.default
+  | some pv => pv < 72 ∧ ∃ b0 t, b0 < 9 ∧ 1 ≤ t ∧ t ≤ 8 ∧ AvShape avail b0 t (pv / 8)
+
+/-- `AvInv` as a decidable check -/
+def avOk (avail : Mask) (prev : Option Nat) : Bool :=
+  avail.length == 9 && avail.all (fun b => decide (b < 256)) &&
+    (match prev with
+     | none => avail == Mask.default
+     | some pv => decide (pv < 72) &&
+        (List.range 9).any (fun b0 => (List.range 8).any (fun t' =>
+          (List.range 9).all (fun k => bankCnt avail k == if inCyc b0 (pv / 8) k then 8 - (t' + 1) else 9 - (t' + 1)))))
+
+theorem avOk_iff {avail : Mask} {prev : Option Nat} : avOk avail prev = true ↔ AvInv avail prev := by
+  unfold avOk AvInv AvShape
+  cases prev with
+  | none => simp [and_assoc]
+  | some pv =>
+    simp only [Bool.and_eq_true, beq_iff_eq, List.all_eq_true, decide_eq_true_eq, List.any_eq_true, List.mem_range, and_assoc]
+    constructor
+    · rintro ⟨h1, h2, h3, b0, hb0, t', ht', h4⟩
+      exact ⟨h1, h2, h3, b0, t' + 1, hb0, by omega, by omega, h4⟩
+    · rintro ⟨h1, h2, h3, b0, t, hb0, ht1, ht8, h4⟩
+      refine ⟨h1, h2, h3, b0, hb0, t - 1, by omega, ?_⟩
+      have : t - 1 + 1 = t := by omega
+      rw [this]; exact h4
+
+/-- while biased join attempts remain, the walk has not started -/
+def biasFresh (j : JoinChannels) : Bool :=
+  !(j.preferredSubband.isSome && decide (j.numRetries < j.maxRetries)) || (j.avail == Mask.default && j.availPrev == none)
+
 def jcWF (j : JoinChannels) : Bool :=
   j.avail.length == 9 &&
     (match j.preferredSubband with
      | some sb => decide (1 ≤ sb ∧ sb ≤ 8)
-     | none => true)
+     | none => true) && avOk j.avail j.availPrev && biasFresh j
 
 def regionWF (rs : RegionState) : Bool :=
   match rs.plan with
@@ -120,10 +178,19 @@ theorem all_getElem? {α} (f : α → Bool) (l : List α) (i : Nat) (x : α) (hl
     f x = true :=
   List.all_eq_true.mp hl x (List.mem_of_getElem? hx)
 
+theorem biasFresh_iff {j : JoinChannels} :
+    biasFresh j = true ↔ (j.preferredSubband.isSome = true → j.numRetries < j.maxRetries → j.avail = Mask.default ∧ j.availPrev = none) := by
+  unfold biasFresh
+  cases j.preferredSubband <;> by_cases h : j.numRetries < j.maxRetries <;> simp [h]
+
 theorem jcWF_iff {j : JoinChannels} :
-    jcWF j = true ↔ j.avail.length = 9 ∧ ∀ sb, j.preferredSubband = some sb → 1 ≤ sb ∧ sb ≤ 8 := by
+    jcWF j = true ↔ j.avail.length = 9 ∧ (∀ sb, j.preferredSubband = some sb → 1 ≤ sb ∧ sb ≤ 8) ∧
+      AvInv j.avail j.availPrev ∧ biasFresh j = true := by
   unfold jcWF
-  cases j.preferredSubband <;> simp
+  rw [← avOk_iff]
+  cases j.preferredSubband <;> simp [and_assoc]
+
+theorem avInv_fresh : AvInv Mask.default none := ⟨by decide, by decide, rfl⟩
 
 theorem regionWF_dyn {rs : RegionState} {p : DynPlan} (hp : rs.plan = .dyn p) :
     regionWF rs = true ↔ rs.id.isFixed = false ∧ dynWF rs.id p = true := by
